@@ -1,13 +1,19 @@
 (* C12 - Same verdict for Claude Code, Gemini CLI and Cursor; envelopes conform.
    Property theorems only; proofs are in Proofs/HookP.v. *)
 From Coq Require Import List Bool NArith String.
-From DippyV Require Import Base.Str Base.Verdict Gen.Tables Model.Hook Proofs.HookP.
+From DippyV Require Import Base.Str Base.Verdict Gen.Tables Model.Hook Model.HookView Proofs.HookP Proofs.HookViewP.
 Import ListNotations.
 
 (* each host reads back exactly the verdict and reason that were put in, for all verdicts and all reasons *)
 Theorem C12_decode : forall m v r, decode m (envelope m v r) = Some (v, r).
 Proof. exact decode_envelope. Qed.
 Print Assumptions C12_decode.
+
+(* the answering mode is read off the host-written level of the payload only (Model/HookView.v): a tool_name or
+   command key below the top level - inside tool_input, tool_response, anywhere - cannot change which host is answered *)
+Theorem C12_mode_host_level : forall e inp, mode_of e (host_view inp) = mode_of e inp.
+Proof. exact mode_of_view. Qed.
+Print Assumptions C12_mode_host_level.
 
 (* each envelope has exactly the host's key set, value types and vocabulary; so has {} *)
 Theorem C12_conform : forall m v r, conforms m (envelope m v r) = true /\ conforms m (JObj []) = true.
